@@ -54,7 +54,29 @@ _PLACE = dict(
     modifies=["param:self", "param:self.bar"], battery="bar_place")
 _c("place_notes", params={"self": "Bar", "notes": "None", "duration": "real"},
    variants=[dict(name="container", params={"self": "Bar", "notes": "NoteContainer", "duration": "real"}),
-             dict(name="int-value", params={"self": "Bar", "notes": "None", "duration": "int"})],
+             dict(name="int-value", params={"self": "Bar", "notes": "None", "duration": "int"}),
+             # a bare name becomes a NEW container holding that one note (octave 4); everything else as above
+             dict(name="bare-name", params={"self": "Bar", "notes": "str", "duration": "real"},
+                  requires="duration > 0 and is_name(notes)",
+                  cases=[dict(when=_ROOM, returns="bool", ensures=[
+                              ("accepted", "result == True"),
+                              ("appends-exactly-one-entry", "len(self.bar) == old_len + 1"),
+                              ("entry-is-start-beat-value-and-a-new-container-of-that-note",
+                               "self.bar[len(self.bar) - 1][0] == old_beat and self.bar[len(self.bar) - 1][1] == duration and "
+                               "len(self.bar[len(self.bar) - 1][2].notes) == 1 and "
+                               "self.bar[len(self.bar) - 1][2].notes[0].name == notes and "
+                               "self.bar[len(self.bar) - 1][2].notes[0].octave == 4 and "
+                               "is_fresh(self.bar[len(self.bar) - 1][2])"),
+                              ("earlier-entries-untouched", "list_prefix_same(self.bar, old_bar, old_len)"),
+                              ("current-beat-advances-by-the-length", "feq(self.current_beat, old_beat + 1 / duration)")]),
+                         dict(when=None, returns="bool", ensures=[
+                              ("refused", "result == False"),
+                              ("and-nothing-changes", "len(self.bar) == old_len and list_prefix_same(self.bar, old_bar, old_len) and "
+                                                      "self.current_beat == old_beat and self.length == old_length")])],
+                  inline_callees=["mingus.containers.note_container.NoteContainer.__init__",
+                                  "mingus.containers.note_container.NoteContainer.empty",
+                                  "mingus.containers.note_container.NoteContainer.add_notes",
+                                  "mingus.containers.note_container.NoteContainer.add_note"])],
    **_PLACE)
 CLASSES["NoteContainer"] = {"class": "mingus.containers.note_container.NoteContainer", "fields": {"notes": "[Note]"}}
 
